@@ -123,7 +123,11 @@ def c15_case(draw, tier="quick"):
         history.append(o)
     optnames = {"scale": "scale", "tag": "tag"}
     if has_opts and draw(st.booleans()):
+        from .. import relations as R_
+
+        # names of the description, including ellipsis families with zero repetitions (their name is still an axis name)
         used = {n.split(".")[0] for n in X.all_axis_names([X.expand(e) for e in base["ins"] + base["outs"]])} | set(base["sizes"])
+        used |= {it[1].split(".")[0] for e in base["ins"] + base["outs"] for it in R_._nodes(e) if it[0] == "ax"}
         taken = used | {p_.lstrip("*") for p_ in POSITIONAL[fn]} | {"axis"}
         pool = [n for n in OPT_NAME_POOL if n not in taken]
         if len(pool) >= 2:
